@@ -138,6 +138,9 @@ type Obs struct {
 	SetBy map[int]map[string]bool
 	// SetByAt: the same flags as seen from inside each Before / After hook, by event name (B0, A2)
 	SetByAt map[string]map[int]map[string]bool
+	// InitSeen (recording mode): what the variables of each ancestor held when a sub-command's initializer ran, by
+	// sub-command id then ancestor id (the documented pattern: a child's initializer reads its parent's options)
+	InitSeen map[int]map[int]Binding
 	// PanVals: the values raised by BehPanic hooks, by hook name (B0, ACT1, A2)
 	PanVals map[string]interface{}
 	Ran     int
@@ -211,6 +214,14 @@ func PresetEnv(maxOpts int) {
 	for i := 0; i < maxOpts; i++ {
 		os.Setenv(envName(0, i, &OptDecl{Flag: true}), "true")
 		os.Setenv(envName(0, i, &OptDecl{}), "envval")
+	}
+}
+
+// UnsetPresetEnv removes what PresetEnv set
+func UnsetPresetEnv(maxOpts int) {
+	for i := 0; i < maxOpts; i++ {
+		os.Unsetenv(envName(0, i, &OptDecl{Flag: true}))
+		os.Unsetenv(envName(0, i, &OptDecl{}))
 	}
 }
 
@@ -435,7 +446,21 @@ func buildApp(a *App, o *Obs, setEnv *[]string) (*cli.Cli, map[int]*recs, func(c
 				c.Command(strings.Join(k.Aliases, " "), "d", cli.ActionCommand(mkHook(k, "ACT", k.Action, true)))
 				continue
 			}
-			c.Command(strings.Join(k.Aliases, " "), "d", func(sc *cli.Cmd) { build(sc, k) })
+			c.Command(strings.Join(k.Aliases, " "), "d", func(sc *cli.Cmd) {
+				if !a.Builtin {
+					if o.InitSeen == nil {
+						o.InitSeen = map[int]map[int]Binding{}
+					}
+					seen := map[int]Binding{}
+					for anc := k.Parent; anc != nil; anc = anc.Parent {
+						if rr := all[anc.ID]; rr != nil {
+							seen[anc.ID] = bindOfRecs(rr)
+						}
+					}
+					o.InitSeen[k.ID] = seen
+				}
+				build(sc, k)
+			})
 		}
 	}
 	build(app.Cmd, a.Root)
@@ -559,21 +584,25 @@ func (o *Obs) snapshot(a *App, all map[int]*recs) {
 	}
 }
 
+func bindOfRecs(rr *recs) Binding {
+	b := Binding{Opts: map[*OptDecl][]string{}, Args: map[*ArgDecl][]string{}}
+	for od, rc := range rr.o {
+		if rc.Clears > 0 && len(rc.Vals) > 0 {
+			b.Opts[od] = append([]string{}, rc.Vals...)
+		}
+	}
+	for ad, rc := range rr.a {
+		if rc.Clears > 0 && len(rc.Vals) > 0 {
+			b.Args[ad] = append([]string{}, rc.Vals...)
+		}
+	}
+	return b
+}
+
 func finalBind(all map[int]*recs) map[int]Binding {
 	res := map[int]Binding{}
 	for tid, rr := range all {
-		b := Binding{Opts: map[*OptDecl][]string{}, Args: map[*ArgDecl][]string{}}
-		for od, rc := range rr.o {
-			if rc.Clears > 0 && len(rc.Vals) > 0 {
-				b.Opts[od] = append([]string{}, rc.Vals...)
-			}
-		}
-		for ad, rc := range rr.a {
-			if rc.Clears > 0 && len(rc.Vals) > 0 {
-				b.Args[ad] = append([]string{}, rc.Vals...)
-			}
-		}
-		res[tid] = b
+		res[tid] = bindOfRecs(rr)
 	}
 	return res
 }
@@ -665,8 +694,9 @@ type SpecOutcome struct {
 // CompileSpec declares -a/--aa (flag; mask bit 1), -o/--out (valued; 2), X (4), Y (8), sets the spec and calls Run with no argument.
 // Light-weight (no goroutine): under ContinueOnError with an empty command line nothing can call the exit function.
 // With sub=true the spec is given to a subcommand "sub" reached by routing, and the root has all three hooks.
-func CompileSpec(spec string, sub bool, declMask int) (out SpecOutcome) {
+func CompileSpec(spec string, via int, declMask int) (out SpecOutcome) {
 	cli.VerifSetStdErr(io.Discard)
+	cli.VerifSetStdOut(io.Discard)
 	defer func() {
 		if v := recover(); v != nil {
 			if pos, in, ok := cli.VerifParseErrorPos(v); ok {
@@ -705,10 +735,10 @@ func CompileSpec(spec string, sub bool, declMask int) (out SpecOutcome) {
 		c.Before, c.Action, c.After = ev("B"), ev("ACT"), ev("A")
 	}
 	argv := []string{"app"}
-	if sub {
+	if via > 0 {
 		app.Before, app.After = ev("B0"), ev("A0")
 		app.Command("sub", "", decl)
-		argv = append(argv, "sub")
+		argv = append(argv, CompileVias[via]...)
 	} else {
 		decl(app.Cmd)
 	}
@@ -716,6 +746,11 @@ func CompileSpec(spec string, sub bool, declMask int) (out SpecOutcome) {
 	out.OK = true
 	return
 }
+
+// CompileVias: the command lines through which the command carrying the spec under test is reached: 0 the root
+// itself, 1 addressed, 2-3 its help requested (validation is skipped, the spec is compiled all the same), 4-5 the
+// parent's help rendered (it lists the sub-command, which is initialised for that)
+var CompileVias = [][]string{nil, {"sub"}, {"sub", "--help"}, {"sub", "tok", "-h"}, {"--help"}, {"nosuchcommand"}}
 
 // Tokenize exposes the spec lexer through the hook
 func Tokenize(spec string) ([]cli.VerifToken, int, error) { return cli.VerifTokenize(spec) }
